@@ -1,0 +1,28 @@
+//go:build verif
+
+// Package verifhook provides named yield points for the external
+// verification harness. With the "verif" build tag the harness installs
+// its scheduler through StepFn and AwaitFn; when they are nil the points
+// do nothing.
+package verifhook
+
+// StepFn and AwaitFn are set by the harness before any request runs.
+var (
+	StepFn  func(op string, detail string)
+	AwaitFn func(op string, ready func() bool)
+)
+
+// Step marks a point at which the harness may switch to another request.
+func Step(op string, detail string) {
+	if f := StepFn; f != nil {
+		f(op, detail)
+	}
+}
+
+// Await marks a point at which the caller is about to block until ready
+// reports true.
+func Await(op string, ready func() bool) {
+	if f := AwaitFn; f != nil {
+		f(op, ready)
+	}
+}
